@@ -233,6 +233,7 @@ type World struct {
 	rewardHeights []uint64 // heights of blocks whose coinbase carries a standard payload and pays staking rewards
 	proposalHeights []uint64 // heights of blocks with a punishment proposal and a ban list
 	lag *lagInfo // set by scenario lagging-reorg
+	lagDirty bool // a wallet was removed or imported by a request since: the recorded rows may have been rebuilt
 	stopped bool // scenario stopped: WalletManager.Stop has run
 }
 
